@@ -13,6 +13,20 @@ uint32_t my_crc32c_sse42(const uint8_t *, size_t);
 
 static int have_sse42;
 
+/* the CPU-feature question the library asks at start-up is answered by this shim (ld --wrap): with VERIF_CPU_WITHOUT_SSE42=1 in the
+ * environment the process runs as if on an x86-64 CPU without SSE4.2, so the library's own selection logic takes its fallback arm */
+#if defined(__x86_64__)
+bool __real_my_crc32c_sse42_supported(void);
+static int g_cpu_question_asked, g_forced_without_sse42;
+bool __wrap_my_crc32c_sse42_supported(void)
+{
+	g_cpu_question_asked++;
+	const char *e = getenv("VERIF_CPU_WITHOUT_SSE42");
+	if (e && e[0] == '1') { g_forced_without_sse42 = 1; return false; }
+	return __real_my_crc32c_sse42_supported();
+}
+#endif
+
 /* reflected CRC-32C (Castagnoli, polynomial 0x1EDC6F41 reflected = 0x82F63B78), one bit at a time */
 static uint32_t ref_crc(const uint8_t *p, size_t n)
 {
@@ -182,17 +196,18 @@ static uint32_t crc_of_zeros(uint64_t n)
 static void sub_huge(const args_t *a, long c, rng_t *r)
 {
 	(void)a;
-	static const uint64_t LEN[] = {(1ULL << 31) + 43, (1ULL << 32) + 8005, 1ULL << 32, (1ULL << 32) - 1, (1ULL << 31) - 5};
-	uint64_t len = LEN[c % 5]; unsigned al = (c % 5 == 0) ? 3 : 0;
+	/* case 5 (thorough): 2^35 + 64 MiB + 31 bytes, beyond a 32-bit count of 8-byte words */
+	static const uint64_t LEN[] = {(1ULL << 31) + 43, (1ULL << 32) + 8005, 1ULL << 32, (1ULL << 32) - 1, (1ULL << 31) - 5, (1ULL << 35) + (64ULL << 20) + 31};
+	uint64_t len = LEN[c % 6]; unsigned al = (c % 6 == 0) ? 3 : (c % 6 == 5) ? 1 : 0;
 	/* self-check of the zero-run operator against the plain loop */
 	{ static uint8_t zs[5000]; for (size_t n = 0; n < 5000; n += 617) if (crc_of_zeros(n) != ref_crc(zs, n)) { fprintf(stderr, "harness: zero-run operator wrong at %zu\n", n); exit(99); } }
 	uint8_t *map = mmap(NULL, len + 4096, PROT_READ | PROT_WRITE, MAP_PRIVATE | MAP_ANONYMOUS | MAP_NORESERVE, -1, 0);
 	if (map == MAP_FAILED) { inconclusive("cannot map %" PRIu64 " bytes", len); return; }
 	uint8_t *buf = map + al;
 	/* islands of random bytes at the start, around 2^31, around 2^32 (if inside) and at the very end */
-	uint64_t isl[4] = {0, (1ULL << 31) - 300, (1ULL << 32) - 300, len - 700}; size_t il = 600;
+	uint64_t isl[5] = {0, (1ULL << 31) - 300, (1ULL << 32) - 300, len > (1ULL << 35) ? (1ULL << 35) - 300 : len, len - 700}; size_t il = 600;
 	uint32_t want = 0; uint64_t pos = 0;
-	for (int i = 0; i < 4; i++) {
+	for (int i = 0; i < 5; i++) {
 		if (isl[i] + il > len || isl[i] < pos) continue;
 		for (size_t j = 0; j < il; j++) buf[isl[i] + j] = (uint8_t)rnd64(r);
 		want = crc_combine(want, crc_of_zeros(isl[i] - pos), isl[i] - pos);
@@ -209,6 +224,7 @@ static void sub_huge(const args_t *a, long c, rng_t *r)
 #endif
 	munmap(map, len + 4096);
 	STAT("huge.buffers_ge_2GiB");
+	if (len >= (1ULL << 35)) STAT("huge.buffers_ge_32GiB");
 	stat_max("max.random.len", len);
 	case_hash(len);
 }
@@ -221,6 +237,16 @@ int main(int argc, char **argv)
 	have_sse42 = my_crc32c_sse42_supported();
 #endif
 	stat_add("host.sse42_supported", have_sse42);
+#if defined(__x86_64__)
+	/* which implementation did the library's start-up selection install? (observed, not set, by the harness) */
+	(void)mtbl_crc32c((const uint8_t *)"", 0);
+	statf(1, "dispatch.selected.%s", my_crc32c == my_crc32c_slicing ? "slicing" : my_crc32c == my_crc32c_sse42 ? "sse42" : "neither");
+	if (g_forced_without_sse42) {
+		STAT("dispatch.runs_as_cpu_without_sse42");
+		if (my_crc32c != my_crc32c_slicing) viol("C17/no-table-driven-fallback-selected", "on a CPU that does not report SSE4.2 the library did not select the table-driven implementation");
+	}
+	if (!g_cpu_question_asked) STAT("dispatch.cpu_question_never_asked");
+#endif
 	case_fn f = NULL;
 	if (!strcmp(a.sub, "rfc")) f = sub_rfc;
 	else if (!strcmp(a.sub, "lenalign")) f = sub_lenalign;
